@@ -234,11 +234,18 @@ pub fn server_in_state(state: usize) -> Option<(ServerSession, Peer)> {
             peer.decode(p);
         }
     }
+    // the peer must see EVERY packet the session hands out, in order (its decoder follows the header compression)
     let mut feed = |srv: &mut ServerSession, peer: &mut Peer, m: RtmpMessage, msid: u32| -> Vec<ServerSessionResult> {
         let b = peer.encode(m, 0, msid);
-        srv.handle_input(&b).unwrap_or_default()
+        let rs = srv.handle_input(&b).unwrap_or_default();
+        for r in rs.iter() {
+            if let ServerSessionResult::OutboundResponse(p) = r {
+                peer.decode(p);
+            }
+        }
+        rs
     };
-    let accept_last = |srv: &mut ServerSession, rs: &[ServerSessionResult]| {
+    let accept_last = |srv: &mut ServerSession, peer: &mut Peer, rs: &[ServerSessionResult]| {
         for r in rs {
             if let ServerSessionResult::RaisedEvent(e) = r {
                 let id = match e {
@@ -248,7 +255,13 @@ pub fn server_in_state(state: usize) -> Option<(ServerSession, Peer)> {
                     _ => None,
                 };
                 if let Some(id) = id {
-                    let _ = srv.accept_request(id);
+                    if let Ok(rs2) = srv.accept_request(id) {
+                        for r2 in rs2.iter() {
+                            if let ServerSessionResult::OutboundResponse(p) = r2 {
+                                peer.decode(p);
+                            }
+                        }
+                    }
                 }
             }
         }
@@ -256,7 +269,7 @@ pub fn server_in_state(state: usize) -> Option<(ServerSession, Peer)> {
     if state >= 1 {
         let rs = feed(&mut srv, &mut peer, RtmpMessage::Amf0Command { command_name: "connect".into(), transaction_id: 1.0,
                       command_object: obj(vec![("app", s("live"))]), additional_arguments: vec![] }, 0);
-        accept_last(&mut srv, &rs);
+        accept_last(&mut srv, &mut peer, &rs);
     }
     if state >= 2 {
         feed(&mut srv, &mut peer, RtmpMessage::Amf0Command { command_name: "createStream".into(), transaction_id: 2.0,
@@ -265,12 +278,12 @@ pub fn server_in_state(state: usize) -> Option<(ServerSession, Peer)> {
     if state == 3 {
         let rs = feed(&mut srv, &mut peer, RtmpMessage::Amf0Command { command_name: "publish".into(), transaction_id: 0.0,
                       command_object: Amf0Value::Null, additional_arguments: vec![s("key"), s("live")] }, 1);
-        accept_last(&mut srv, &rs);
+        accept_last(&mut srv, &mut peer, &rs);
     }
     if state == 4 {
         let rs = feed(&mut srv, &mut peer, RtmpMessage::Amf0Command { command_name: "play".into(), transaction_id: 0.0,
                       command_object: Amf0Value::Null, additional_arguments: vec![s("key")] }, 1);
-        accept_last(&mut srv, &rs);
+        accept_last(&mut srv, &mut peer, &rs);
     }
     Some((srv, peer))
 }
